@@ -69,3 +69,12 @@ func StringRef(s string) *string {
 func BoolRef(b bool) *bool {
 	return &b
 }
+
+// CopyBytes returns a copy of b. Buffers taken from BufferPool are given back
+// when a marshaler returns, so their memory must not be handed to the caller:
+// another goroutine may already be writing into the same buffer.
+func CopyBytes(b []byte) []byte {
+	c := make([]byte, len(b))
+	copy(c, b)
+	return c
+}
